@@ -146,6 +146,12 @@ Proof. exact loadfail_free_surfaces. Qed.
 Theorem C15_loadfail_free_driver : forall v, getf (v_st v) FLAG_LOADFAIL = false -> loadfail_free empty_rsrc v.
 Proof. exact empty_rsrc_loadfail_free. Qed.
 
+(* the resource the vmrun driver uses since the follow-up (one entry function "lds" that cannot fail) *)
+Theorem C15_loadfail_free_driver_lds : forall v, getf (v_st v) FLAG_LOADFAIL = false -> loadfail_free vr_rsrc v.
+Proof. exact vr_rsrc_loadfail_free. Qed.
+Theorem C15_driver_lds_guards : code_total vr_rsrc /\ forall st, funcs_flags_ok vr_rsrc st.
+Proof. exact (conj vr_rsrc_total vr_rsrc_funcs_flags_ok). Qed.
+
 (* ---- (c) ---------------------------------------------------------------------------------------- *)
 Theorem C15_run_panic_cause : forall rs sep fuel lang code v v' rest n,
   c_frames (v_ca v) <> [] -> code_total rs ->
@@ -235,6 +241,8 @@ Print Assumptions C15_run_ok_only_on_decodable_partial.
 Print Assumptions C15_loadfail_free_decidable.
 Print Assumptions C15_loadfail_free_surfaces.
 Print Assumptions C15_loadfail_free_driver.
+Print Assumptions C15_loadfail_free_driver_lds.
+Print Assumptions C15_driver_lds_guards.
 Print Assumptions C15_run_panic_cause.
 Print Assumptions C15_run_panics_only_flag_range.
 Print Assumptions C15_run_never_panics_any_bytes.
